@@ -13,6 +13,7 @@ import (
 	"strconv"
 	"strings"
 
+	"github.com/oasisprotocol/curve25519-voi/curve"
 	"github.com/oasisprotocol/curve25519-voi/curve/scalar"
 	"github.com/oasisprotocol/curve25519-voi/internal/field"
 )
@@ -38,7 +39,7 @@ func t0Load() map[string]t0Prog {
 	for sc.Scan() {
 		hd := strings.SplitN(sc.Text(), " ; ", 2)[0]
 		f := strings.Fields(hd)
-		if len(f) < 4 || f[0] != "prog" {
+		if len(f) < 4 || (f[0] != "prog" && f[0] != "tree") {
 			continue
 		}
 		p := t0Prog{name: f[1]}
@@ -55,6 +56,9 @@ func t0Load() map[string]t0Prog {
 
 func t0Call(name string, in []uint64) ([]uint64, bool) {
 	if r, ok := field.VerifT0(name, in); ok {
+		return r, true
+	}
+	if r, ok := curve.VerifT0(name, in); ok {
 		return r, true
 	}
 	return scalar.VerifT0(name, in)
@@ -100,6 +104,9 @@ func genT0(g *Gen) {
 	for _, n := range scalar.VerifT0Names() {
 		names = append(names, n)
 	}
+	for _, n := range curve.VerifT0Names() {
+		names = append(names, n)
+	}
 	if len(names) == 0 {
 		return
 	}
@@ -140,6 +147,19 @@ func genT0(g *Gen) {
 					v = g.U64() & max
 				default:
 					v = t0Val(g, b, capBits)
+				}
+				if strings.HasPrefix(name, "Pred.") {
+					// byte predicates: mostly extreme byte values, so that long prefixes of the comparison chains are taken
+					switch g.Intn(6) {
+					case 0:
+						v = uint64(g.Intn(256))
+					case 1:
+						v = 0
+					case 2:
+						v = 255
+					default:
+						v = []uint64{0xff, 0xff, 0xff, 0x7f, 0xed, 0xec, 0xee, 0x10, 0x0f, 0x00, 0x01, 0x80, 0x14, 0xde}[g.Intn(14)]
+					}
 				}
 				// a selector/choice argument is only ever 0 or 1
 				if b == 64 && strings.Contains(name, "Conditional") && i == len(p.inBits)-1 {
